@@ -92,6 +92,25 @@ impl ClassSet {
         }
     }
 
+    /// Prepare this set for complementing (`[^...]`): a one-code-point string is the same member as
+    /// the code point, so move those into the code point set. \return false if strings remain, which a
+    /// negated class may not contain.
+    fn fold_strings_for_negation(&mut self) -> bool {
+        let ClassSet {
+            codepoints,
+            alternatives,
+        } = self;
+        alternatives.0.retain(|s| {
+            if s.len() == 1 {
+                codepoints.add_one(s[0]);
+                false
+            } else {
+                true
+            }
+        });
+        alternatives.0.is_empty()
+    }
+
     fn union_operand(&mut self, operand: ClassSetOperand) {
         match operand {
             ClassSetOperand::ClassSetCharacter(c) => {
@@ -680,10 +699,11 @@ where
                 '[' if self.flags.unicode_sets => {
                     self.consume('[');
                     let negate_set = self.try_consume('^');
-                    result.push(
-                        self.consume_class_set_expression(negate_set)?
-                            .node(self.flags.icase, negate_set),
-                    );
+                    let mut set = self.consume_class_set_expression(negate_set)?;
+                    if negate_set && !set.fold_strings_for_negation() {
+                        return error("Negated character class may contain strings");
+                    }
+                    result.push(set.node(self.flags.icase, negate_set));
                 }
 
                 '[' => {
@@ -1187,6 +1207,9 @@ where
                 let negate_set = self.try_consume('^');
                 let mut result = self.consume_class_set_expression(negate_set)?;
                 if negate_set {
+                    if !result.fold_strings_for_negation() {
+                        return error("Negated character class may contain strings");
+                    }
                     result.codepoints = result.codepoints.inverted();
                 }
                 self.depth -= 1;
